@@ -519,8 +519,8 @@ type gate struct {
 	parked  []*attempt
 	running int
 	done    bool
-	stuck   bool  // set by the watcher: nothing runs, nothing is parked, and the computation does not return
-	events  int64 // attempts parked, released and completed so far
+	stuck   bool     // set by the watcher: nothing runs, nothing is parked, and the computation does not return
+	events  int64    // attempts parked, released and completed so far
 	order   []string // ids in release order
 	exits   []string // ids in completion order
 }
